@@ -264,3 +264,623 @@ Example ex_xwr :
   (r1, r2, r3, snd (xwr_end (fst (xwr_begin w6)))) =
   ((0%Z, 0%N), (0%Z, 1%N), (0%Z, 0%N), (0%Z, 4294967295%N)).
 Proof. vm_compute. reflexivity. Qed.
+
+(* ======================================================================================
+   Containers (session 3): lib/util/src/{hash_table,rbtree,str_table,array}.c as verified
+   data structures (coq/Util).  So far the object models above treated rbtree_copy /
+   str_table_copy / array_init_copy as "a set of cells is duplicated"; C08 and C01 treat the
+   hash table / tree as an association list.  The statements below are about executable
+   models that follow the C code statement by statement (tied to the working tree by an
+   operation-sequence differential, props/C19/util_tie.py); constants come from
+   Util/GenUtil.v, generated from the sources on every run.  No bound on the number of
+   operations or keys, except where a C type imposes one (stated as a hypothesis).
+   Allocation failure is not modelled.
+   ====================================================================================== *)
+From Coq Require Import Permutation Znumtheory Sorting.Sorted.
+From SqfsV Require Import Gen.Constants Util.GenUtil Util.FastRem Util.Primes Util.HashModel Util.HashBase
+     Util.HashRows Util.HashInv Util.HashContracts Util.RbModel Util.RbOrder Util.RbBalance Util.RbTheorems
+     Util.RbExamples Util.RbPair Util.ArrayModel Util.ArrayProofs.
+
+(* ---- hash_table.c ---- *)
+
+(* util_fast_urem32 with the magic of its divisor is the remainder (the assert in the C code
+   never fires): the start address and the step of the probing sequence are hash mod size and
+   1 + hash mod rehash *)
+Theorem fast_urem32_is_mod : forall n d,
+  (n < two32)%N -> (1 < d)%N -> (d < two32)%N -> fast_urem32 n d (remainder_magic d) = (n mod d)%N.
+Proof. exact fast_urem32_correct. Qed.
+Print Assumptions fast_urem32_is_mod.
+
+(* every size of hash_sizes[] is prime, so the probing sequence visits every slot *)
+Theorem hash_sizes_prime : forall i r,
+  nth_error util_hash_sizes i = Some r -> prime (Z.of_N (row_size r)).
+Proof. exact rows_prime. Qed.
+Print Assumptions hash_sizes_prime.
+
+Theorem probing_visits_every_slot : forall size rehash, geom size rehash ->
+  forall h p, (p < size)%N -> exists i, (i < size)%N /\ ppath size rehash h i = p.
+Proof. exact ppath_surj. Qed.
+Print Assumptions probing_visits_every_slot.
+
+(* hash_table_create yields a well-formed empty table ([wf]: fields of the row, size slots,
+   counters = numbers of present / deleted slots, entries + deleted <= max_entries, and every
+   present entry lies on the probing sequence of its own hash with no free slot before it) *)
+Theorem hash_table_create_wf : forall K V : Type,
+  exists t, ht_create K V = Some t /\ wf K V t /\ livel K V (ht_table K V t) = nil.
+Proof. exact ht_create_wf. Qed.
+Print Assumptions hash_table_create_wf.
+
+(* hash_table_search_pre_hashed: terminates without leaving the table and returns an entry whose
+   stored hash is the given one and for which the callback said yes; NULL only if the callback
+   says no for every live entry with that hash -- tombstones in between notwithstanding.
+   No hypothesis about the callback. *)
+Theorem hash_table_search_contract : forall (K V : Type) (keq : K -> K -> bool) t hash key,
+  wf K V t -> (hash < two32)%N ->
+  exists r, ht_search K V keq t hash key = Ok r /\
+    match r with
+    | Some a => exists k d, nthN (ht_table K V t) a = Some (SPresent hash k d) /\ keq key k = true
+    | None => forall p k d, nthN (ht_table K V t) p = Some (SPresent hash k d) -> keq key k = false
+    end.
+Proof. exact ht_search_spec. Qed.
+Print Assumptions hash_table_search_contract.
+
+(* hash_table_insert_pre_hashed, including the rehash into the next row (entries = max_entries)
+   or the same row (tombstones) it may start with: never returns NULL, never loops, keeps [wf],
+   and either replaces one live entry of the same hash the callback declares equal (key and data
+   replaced, count unchanged) or -- if the callback says no for all of them -- adds the entry.
+   Live entries are otherwise preserved (as a multiset: a rehash permutes the slots). *)
+Theorem hash_table_insert_contract : forall (K V : Type) (keq : K -> K -> bool) t hash key data,
+  wf K V t -> (hash < two32)%N -> (ht_entries K V t < ht_safe_limit)%N ->
+  exists t' a,
+    ht_insert K V keq t hash key data = Ok (t', Some a) /\ wf K V t' /\
+    nthN (ht_table K V t') a = Some (SPresent hash key data) /\
+    ((exists k0 d0 rest,
+        keq key k0 = true /\
+        Permutation (livel K V (ht_table K V t)) ((hash, k0, d0) :: rest) /\
+        Permutation (livel K V (ht_table K V t')) ((hash, key, data) :: rest) /\
+        ht_entries K V t' = ht_entries K V t)
+     \/
+     ((forall k0 d0, In (hash, k0, d0) (livel K V (ht_table K V t)) -> keq key k0 = false) /\
+      Permutation (livel K V (ht_table K V t')) ((hash, key, data) :: livel K V (ht_table K V t)) /\
+      ht_entries K V t' = (ht_entries K V t + 1)%N)).
+Proof. exact ht_insert_spec. Qed.
+Print Assumptions hash_table_insert_contract.
+
+(* removing an entry (key = deleted_key, entries--, deleted_entries++) keeps [wf] *)
+Theorem hash_table_remove_contract : forall (K V : Type) (t : htab K V) a h k d,
+  wf K V t -> nthN (ht_table K V t) a = Some (SPresent h k d) ->
+  wf K V (ht_remove_entry K V t a) /\
+  exists rest, Permutation (livel K V (ht_table K V t)) ((h, k, d) :: rest) /\
+               livel K V (ht_table K V (ht_remove_entry K V t a)) = rest.
+Proof. exact ht_remove_spec. Qed.
+Print Assumptions hash_table_remove_contract.
+
+(* the table as a finite map keyed by (hash, equivalence class of the callback): if the callback
+   is symmetric and transitive and at most one live entry answers any search ([uniq]; true of the
+   empty table), insert keeps that - across rehash and tombstones - and search returns THE entry
+   of the class *)
+From SqfsV Require Import Util.HashMapView.
+
+Theorem hash_table_refines_map : forall (K V : Type) (keq : K -> K -> bool),
+  (forall a b, keq a b = true -> keq b a = true) ->
+  (forall a b c, keq a b = true -> keq b c = true -> keq a c = true) ->
+  uniq K V keq nil /\
+  (forall t hash key data t' a,
+     wf K V t -> (hash < two32)%N -> (ht_entries K V t < ht_safe_limit)%N ->
+     uniq K V keq (livel K V (ht_table K V t)) ->
+     ht_insert K V keq t hash key data = Ok (t', Some a) ->
+     uniq K V keq (livel K V (ht_table K V t'))) /\
+  (forall t hash key k0 d0,
+     wf K V t -> (hash < two32)%N -> uniq K V keq (livel K V (ht_table K V t)) ->
+     In (hash, k0, d0) (livel K V (ht_table K V t)) -> keq key k0 = true ->
+     exists a, ht_search K V keq t hash key = Ok (Some a) /\ ht_entry K V t a = Some (hash, k0, d0)).
+Proof.
+  intros K V keq S T. split; [exact (uniq_nil K V keq)|].
+  split; [exact (ht_insert_keeps_uniq K V keq S T)|exact (ht_search_unique K V keq)].
+Qed.
+Print Assumptions hash_table_refines_map.
+
+(* why [ht_safe_limit] = 2^30 entries: in the last row of hash_sizes[] the 32 bit addition
+   hash_address += double_hash can wrap and the sequence leaves (s + i*d) mod size *)
+Theorem hash_table_last_row_wraps :
+  exists r addr dh,
+    nth_error util_hash_sizes (pred (length util_hash_sizes)) = Some r /\
+    (addr < row_size r)%N /\ (dh <= row_rehash r)%N /\
+    next_addr (row_size r) addr dh <> ((addr + dh) mod row_size r)%N.
+Proof. exact last_row_wraps. Qed.
+
+Example ex_ht_limit : ht_safe_limit = 1073741824%N /\ safe_rows = 30%nat.
+Proof. exact ht_safe_limit_val. Qed.
+
+(* a run through rehash and tombstones: the table of 5 slots (max_entries 2) grows at the third
+   insert although that insert only replaces an entry of the same class; removal leaves a
+   tombstone, the search across it still ends, the other entry is still found *)
+Example ex_ht_run :
+  (let keq := fun a b : N => N.eqb (a / 4) (b / 4) in
+  match ht_create N N with
+  | Some t0 =>
+    match ht_insert N N keq t0 7 1 100 with
+    | Ok (t1, _) =>
+      match ht_insert N N keq t1 12 9 200 with
+      | Ok (t2, _) =>
+        match ht_insert N N keq t2 7 2 300 with
+        | Ok (t3, Some a3) =>
+          match ht_search N N keq t3 12 8 with
+          | Ok (Some a) =>
+            let t4 := ht_remove_entry N N t3 a in
+            match ht_insert N N keq t4 17 20 400 with
+            | Ok (t5, _) =>
+              (ht_size_index N N t3, ht_entries N N t3, ht_entry N N t3 a3, ht_deleted N N t4,
+               ht_size_index N N t5, ht_entries N N t5, ht_deleted N N t5,
+               ht_search N N keq t5 12 8, ht_search N N keq t5 7 3)
+              = (1%nat, 2, Some (7, 2, 300), 1, 1%nat, 2, 1, Ok None, Ok (Some 0))
+            | _ => False
+            end
+          | _ => False
+          end
+        | _ => False
+        end
+      | _ => False
+      end
+    | _ => False
+    end
+  | None => False
+  end)%N.
+Proof. vm_compute. reflexivity. Qed.
+
+(* ---- rbtree.c ---- *)
+
+(* the hypothesis of the order theorems: the comparator is a strict weak order (its sign is
+   antisymmetric, <= is transitive).  The directory reader's comparator and memcmp meet it. *)
+Theorem dcache_key_compare_is_order :
+  (forall a b, (cmp_u32 a b < 0 <-> 0 < cmp_u32 b a)%Z) /\
+  (forall a b c, (cmp_u32 a b <= 0 -> cmp_u32 b c <= 0 -> cmp_u32 a c <= 0)%Z).
+Proof. exact (conj cmp_u32_antisym cmp_u32_trans). Qed.
+Print Assumptions dcache_key_compare_is_order.
+
+Theorem memcmp_is_order :
+  (forall a b, (cmp_bytes a b < 0 <-> 0 < cmp_bytes b a)%Z) /\
+  (forall a b c, (cmp_bytes a b <= 0 -> cmp_bytes b c <= 0 -> cmp_bytes a c <= 0)%Z).
+Proof. exact (conj cmp_bytes_antisym cmp_bytes_trans). Qed.
+
+(* rbtree_init (return value 0): key_size_padded = key_size rounded up to pointer size, and the
+   empty tree satisfies [rbtree_inv]: in-order sequence sorted by the comparator, black root,
+   no red node with a red child, no red right child, equal black height on all paths, every node
+   with value_offset = key_size_padded and key_size_padded + value_size data bytes *)
+Theorem rbtree_init_inv_holds : forall cmp ks vs,
+  fst (rbtree_init ks vs) = 0%Z ->
+  let t := snd (rbtree_init ks vs) in
+  rb_root t = Leaf /\ rb_key_size t = ks /\ rb_value_size t = vs /\
+  (ks <= rb_key_size_padded t)%N /\ (rb_key_size_padded t mod util_sizeof_ptr = 0)%N /\
+  (rb_key_size_padded t < ks + util_sizeof_ptr)%N /\ rbtree_inv cmp t.
+Proof. exact rbtree_init_inv. Qed.
+Print Assumptions rbtree_init_inv_holds.
+
+(* rbtree_insert never dereferences NULL, allocates exactly one node, preserves [rbtree_inv]
+   (rotations, colour flips and the recursion as in the C code), and the in-order sequence of
+   the new tree is the sorted insertion of the new node *)
+Theorem rbtree_insert_preserves_inv : forall cmp,
+  (forall a b, (cmp a b < 0 <-> 0 < cmp b a)%Z) ->
+  (forall a b c, (cmp a b <= 0 -> cmp b c <= 0 -> cmp a c <= 0)%Z) ->
+  forall t next key value,
+  rbtree_inv cmp t -> RbModel.lenN key = rb_key_size t -> RbModel.lenN value = rb_value_size t ->
+  exists t',
+    rbtree_insert cmp t next key value = Some (t', (next + 1)%N) /\
+    rbtree_inv cmp t' /\
+    rb_key_size t' = rb_key_size t /\ rb_key_size_padded t' = rb_key_size_padded t /\
+    rb_value_size t' = rb_value_size t /\
+    elements (rb_root t') =
+      ins_sorted cmp (rb_key_size t) (new_elem t next key value) (elements (rb_root t)).
+Proof. exact rbtree_insert_inv. Qed.
+Print Assumptions rbtree_insert_preserves_inv.
+
+(* rbtree_lookup finds a node with an equal key iff the tree holds one *)
+Theorem rbtree_lookup_contract : forall cmp,
+  (forall a b, (cmp a b < 0 <-> 0 < cmp b a)%Z) ->
+  (forall a b c, (cmp a b <= 0 -> cmp b c <= 0 -> cmp a c <= 0)%Z) ->
+  forall t k, rbtree_inv cmp t ->
+  match rbtree_lookup cmp t k with
+  | Leaf => forall e, In e (elements (rb_root t)) -> cmp k (key (rb_key_size t) e) <> 0%Z
+  | Node i _ _ v d _ => In (i, v, d) (elements (rb_root t)) /\ cmp k (firstnN (rb_key_size t) d) = 0%Z
+  end.
+Proof. exact rbtree_lookup_spec. Qed.
+Print Assumptions rbtree_lookup_contract.
+
+(* the tree is the finite map: any sequence of "look up, insert if absent" (what dir_reader.c,
+   dir_hl.c and xattr_writer.c do) from a tree with distinct keys ends in the tree whose in-order
+   sequence is the association list obtained by the same puts, and every lookup answers as
+   [find] on that list *)
+Theorem rbtree_refines_map_thm : forall cmp,
+  (forall a b, (cmp a b < 0 <-> 0 < cmp b a)%Z) ->
+  (forall a b c, (cmp a b <= 0 -> cmp b c <= 0 -> cmp a c <= 0)%Z) ->
+  forall ops t next,
+  rbtree_inv cmp t -> ssorted cmp (rb_key_size t) (elements (rb_root t)) ->
+  Forall (fun kv => RbModel.lenN (fst kv) = rb_key_size t /\ RbModel.lenN (snd kv) = rb_value_size t) ops ->
+  exists t' next',
+    rb_puts cmp (t, next) ops = Some (t', next') /\
+    (elements (rb_root t'), next') = fold_left (amap_put cmp t) ops (elements (rb_root t), next) /\
+    rbtree_inv cmp t' /\ ssorted cmp (rb_key_size t') (elements (rb_root t')) /\ same_sizes t' t /\
+    forall k, node_elem (rbtree_lookup cmp t' k) = amap_find cmp (rb_key_size t') k (elements (rb_root t')).
+Proof. exact rbtree_refines_map. Qed.
+Print Assumptions rbtree_refines_map_thm.
+
+(* rbtree_copy: succeeds, the copy is the same tree (shape, colours, value offsets and ALL
+   key_size_padded + value_size bytes of every node) made of exactly tsize fresh nodes
+   (next, next+1, ... in calloc order), none of them a node of the original *)
+Theorem rbtree_copy_equiv_thm : forall t next, layout_ok t ->
+  exists t',
+    rbtree_copy t next = Some (t', (next + tsize (rb_root t))%N) /\
+    erase (rb_root t') = erase (rb_root t) /\ same_sizes t' t /\
+    map (fun e => (e_voff e, e_data e)) (elements (rb_root t')) =
+      map (fun e => (e_voff e, e_data e)) (elements (rb_root t)) /\
+    Forall (fun i => (next <= i < next + tsize (rb_root t))%N) (ids (rb_root t')) /\
+    NoDup (ids (rb_root t')) /\
+    (Forall (fun i => (i < next)%N) (ids (rb_root t)) ->
+     forall i, In i (ids (rb_root t)) -> ~ In i (ids (rb_root t'))).
+Proof. exact rbtree_copy_equiv. Qed.
+Print Assumptions rbtree_copy_equiv_thm.
+
+Theorem rbtree_copy_keeps_inv : forall cmp t next t' next',
+  rbtree_inv cmp t -> rbtree_copy t next = Some (t', next') -> rbtree_inv cmp t'.
+Proof. exact rbtree_copy_inv. Qed.
+Print Assumptions rbtree_copy_keeps_inv.
+
+(* C19 for the tree: a copy (any tree equal up to node addresses) answers every later sequence
+   of inserts and lookups like the original ... *)
+Theorem rbtree_copy_answers_like_original : forall cmp ops a b na nb,
+  equiv_trees a b ->
+  match rb_run cmp (a, na) ops, rb_run cmp (b, nb) ops with
+  | Some ((a', _), la), Some ((b', _), lb) => la = lb /\ equiv_trees a' b'
+  | None, None => True
+  | _, _ => False
+  end.
+Proof. exact rbtree_equiv_run. Qed.
+Print Assumptions rbtree_copy_answers_like_original.
+
+(* ... and for every interleaving of operations on two trees with disjoint nodes that share the
+   allocator, each side's answers are those of running its own operations alone and the node
+   sets stay disjoint (an operation changes only nodes of its own tree and fresh ones) *)
+Theorem rbtree_pair_independent_thm : forall cmp,
+  (forall x y, (cmp x y < 0 <-> 0 < cmp y x)%Z) ->
+  (forall x y z, (cmp x y <= 0 -> cmp y z <= 0 -> cmp x z <= 0)%Z) ->
+  forall ops a b next,
+  rbtree_inv cmp a -> rbtree_inv cmp b -> same_sizes a b -> pair_ok a b next ->
+  Forall (fun wo => op_sized a (snd wo)) ops ->
+  exists a' b' next' ans,
+    pair_run cmp (a, b, next) ops = Some (a', b', next', ans) /\
+    rbtree_inv cmp a' /\ rbtree_inv cmp b' /\ pair_ok a' b' next' /\
+    (exists na la, rb_run cmp (a, next) (ops_of true ops) = Some (na, la) /\
+                   la = answers_of true ans /\ equiv_trees (fst na) a') /\
+    (exists nb lb, rb_run cmp (b, next) (ops_of false ops) = Some (nb, lb) /\
+                   lb = answers_of false ans /\ equiv_trees (fst nb) b').
+Proof. exact rbtree_pair_independent. Qed.
+Print Assumptions rbtree_pair_independent_thm.
+
+(* the hypotheses are met by a run of the directory reader's tree (keys 2^31 apart included),
+   and every key is found again with all its value bytes *)
+Example ex_rbtree_hypotheses :
+  fst (rbtree_init 4 8) = 0%Z /\
+  Forall (fun kv => RbModel.lenN (fst kv) = rb_key_size ex_tree0 /\
+                    RbModel.lenN (snd kv) = rb_value_size ex_tree0) ex_ops /\
+  rb_key_size_padded ex_tree0 = 8%N.
+Proof. exact ex_rb_hypotheses. Qed.
+
+Example ex_rbtree_found :
+  match rb_puts cmp_u32 (ex_tree0, 0%N) ex_ops with
+  | Some (t, next) =>
+    next = 5%N /\
+    map (fun kv => node_value 8 (rbtree_lookup cmp_u32 t (fst kv))) ex_ops = map snd ex_ops
+  | None => False
+  end.
+Proof. exact ex_rb_found. Qed.
+
+(* why the order hypothesis: the comparator  return (int)(lhs - rhs);  on sqfs_u32 keys is not
+   transitive, and the same five puts lose a key that is in the tree *)
+Theorem cmp_sub32_not_an_order_refuted :
+  exists a b c, (cmp_sub32 a b <= 0 /\ cmp_sub32 b c <= 0 /\ ~ cmp_sub32 a c <= 0)%Z.
+Proof. exact cmp_sub32_not_transitive_refuted. Qed.
+
+Theorem rbtree_lookup_loses_key_without_order_refuted :
+  exists ops k,
+    In k (map fst ops) /\
+    match rb_puts cmp_sub32 (ex_tree0, 0%N) ops with
+    | Some (t, _) =>
+      rbtree_lookup cmp_sub32 t k = Leaf /\
+      In k (map (fun e => firstnN 4 (e_data e)) (elements (rb_root t)))
+    | None => False
+    end.
+Proof. exact rbtree_lookup_loses_key_refuted. Qed.
+
+(* why key_size_padded: copy_node with a memcpy of sizeof(node) + key_size + value_size bytes
+   yields a tree that differs from the original (the tail of every value is lost) *)
+Theorem rbtree_copy_unpadded_refuted :
+  exists t next,
+    layout_ok t /\
+    let short := (util_sizeof_rbnode + rb_key_size t + rb_value_size t)%N in
+    let full := (util_sizeof_rbnode + rb_key_size_padded t + rb_value_size t)%N in
+    match copy_node full short (rb_root t) next, copy_node full full (rb_root t) next with
+    | Some (c1, _), Some (c2, _) => erase c2 = erase (rb_root t) /\ erase c1 <> erase (rb_root t)
+    | _, _ => False
+    end.
+Proof. exact copy_node_unpadded_refuted. Qed.
+
+(* ---- array.c ---- *)
+
+Theorem array_append_refines_list : forall (E : Type) (a : arr E) x,
+  arr_inv E a ->
+  match array_append E a x with
+  | (0%Z, a') => arr_inv E a' /\ a_data a' = a_data a ++ x :: nil /\ a_used a' = (a_used a + 1)%N /\
+                 a_size a' = a_size a /\ (a_count a <= a_count a')%N
+  | (e, a') => e = c_SQFS_ERROR_ALLOC /\ a' = a
+  end.
+Proof. exact array_append_spec. Qed.
+Print Assumptions array_append_refines_list.
+
+Theorem array_init_copy_equiv_thm : forall (E : Type) (src : arr E),
+  arr_inv E src ->
+  match array_init_copy E src with
+  | (0%Z, a) => arr_inv E a /\ a_data a = a_data src /\ a_used a = a_used src /\
+                a_size a = a_size src /\ a_count a = a_used src
+  | (e, _) => e = c_SQFS_ERROR_OVERFLOW /\ (util_size_max < a_size src * a_used src)%N
+  end.
+Proof. exact array_init_copy_equiv. Qed.
+Print Assumptions array_init_copy_equiv_thm.
+
+Theorem array_set_capacity_terminates : forall (E : Type) (a : arr E) cap,
+  arr_inv E a -> (cap <= util_size_max)%N ->
+  exists z a', array_set_capacity E a cap = Ok (z, a') /\
+    a_data a' = a_data a /\ a_used a' = a_used a /\ a_size a' = a_size a /\ arr_inv E a' /\
+    (z = 0%Z -> (cap <= a_count a')%N /\ (a_count a <= a_count a')%N) /\
+    (z <> 0%Z -> z = c_SQFS_ERROR_ALLOC /\ a' = a).
+Proof. exact array_set_capacity_spec. Qed.
+Print Assumptions array_set_capacity_terminates.
+
+Example ex_array :
+  match array_init (list N) 3 0 with
+  | (0%Z, a0) =>
+    let a1 := snd (array_append (list N) a0 (1 :: 2 :: 3 :: nil)%N) in
+    let a2 := snd (array_append (list N) a1 (4 :: 5 :: 6 :: nil)%N) in
+    arr_inv (list N) a2 /\ a_count a2 = util_array_first_count /\
+    fst (array_init_copy (list N) a2) = 0%Z /\ a_count (snd (array_init_copy (list N) a2)) = 2%N
+  | _ => False
+  end.
+Proof. vm_compute. repeat split; try reflexivity; discriminate. Qed.
+
+(* ---- str_table.c ---- *)
+From SqfsV Require Import Util.StrModel Util.StrProofs.
+
+(* [str_inv h t]: the hash table is well-formed, array index i <-> bucket with index i <-> the hash
+   entry of that bucket's string (key pointer into the bucket itself), all strings distinct.
+   It holds for the table str_table_init returns; its abstract value is the empty list. *)
+Theorem str_table_init_inv_thm :
+  exists t, str_table_init = Some (0%Z, t) /\ st_next_index t = 0%N /\
+            forall h, str_inv h t /\ str_abs h t = nil.
+Proof. exact str_table_init_inv. Qed.
+Print Assumptions str_table_init_inv_thm.
+
+(* lookups by index answer from the abstract list (string, reference count) by index *)
+Theorem str_table_get_string_thm : forall h t i, str_inv h t ->
+  str_table_get_string h t i = SOk (option_map fst (nth_error (str_abs h t) (N.to_nat i))).
+Proof. exact str_table_get_string_spec. Qed.
+Print Assumptions str_table_get_string_thm.
+
+Theorem str_table_get_ref_count_thm : forall h t i, str_inv h t ->
+  str_table_get_ref_count h t i =
+    SOk (match nth_error (str_abs h t) (N.to_nat i) with Some (_, rc) => rc | None => 0%N end).
+Proof. exact str_table_get_ref_count_spec. Qed.
+Print Assumptions str_table_get_ref_count_thm.
+
+(* add_ref / del_ref change exactly the count of that index (saturating at SIZE_MAX / 0); the
+   string <-> index bijection, the invariant and the allocator are untouched *)
+Theorem str_table_add_ref_thm : forall h t i, str_inv h t ->
+  exists h', str_table_add_ref h t i = SOk h' /\ str_inv h' t /\
+    str_abs h' t = set_rc (fun rc => if (rc <? util_size_max)%N then (rc + 1)%N else rc) (str_abs h t) i /\
+    strings h' t = strings h t /\ bh_next h' = bh_next h.
+Proof. exact str_table_add_ref_spec. Qed.
+Print Assumptions str_table_add_ref_thm.
+
+Theorem str_table_del_ref_thm : forall h t i, str_inv h t ->
+  exists h', str_table_del_ref h t i = SOk h' /\ str_inv h' t /\
+    str_abs h' t = set_rc (fun rc => if (0 <? rc)%N then (rc - 1)%N else rc) (str_abs h t) i /\
+    strings h' t = strings h t /\ bh_next h' = bh_next h.
+Proof. exact str_table_del_ref_spec. Qed.
+Print Assumptions str_table_del_ref_thm.
+
+(* a run of the model: two strings, the first again, references, a copy made the way
+   xattr_writer_copy does (destination struct = source struct first); the copy has its own
+   buckets (ids 2, 3), the same strings, counts and next_index, and diverges independently *)
+Example ex_str_table :
+  (let h0 := mk_bheap 0 nil in
+   match str_table_init with
+   | Some (_, t0) =>
+     match str_table_get_index h0 t0 (117 :: 115 :: nil) with
+     | SOk (h1, t1, _, i1) =>
+       match str_table_get_index h1 t1 (97 :: nil) with
+       | SOk (h2, t2, _, i2) =>
+         match str_table_get_index h2 t2 (117 :: 115 :: nil), str_table_add_ref h2 t2 1 with
+         | SOk (_, _, _, i3), SOk h3 =>
+           match str_table_copy h3 t2 t2 with
+           | SOk (h4, c, ret) =>
+             match str_table_get_index h4 c (98 :: nil), str_table_del_ref h4 c 1 with
+             | SOk (h5, c', _, i4), SOk h6 =>
+               (i1, i2, i3, ret, st_next_index c, a_data (st_arr c), str_abs h4 c, str_abs h4 t2, i4,
+                str_abs h5 t2, str_abs h6 t2, str_abs h6 c)
+               = (0, 1, 0, 0%Z, 2, 2 :: 3 :: nil,
+                  (117 :: 115 :: nil, 0) :: (97 :: nil, 1) :: nil,
+                  (117 :: 115 :: nil, 0) :: (97 :: nil, 1) :: nil, 2,
+                  (117 :: 115 :: nil, 0) :: (97 :: nil, 1) :: nil,
+                  (117 :: 115 :: nil, 0) :: (97 :: nil, 1) :: nil,
+                  (117 :: 115 :: nil, 0) :: (97 :: nil, 0) :: nil)
+             | _, _ => False
+             end
+           | _ => False
+           end
+         | _, _ => False
+         end
+       | _ => False
+       end
+     | _ => False
+     end
+   | None => False
+   end)%N.
+Proof. vm_compute. reflexivity. Qed.
+
+(* str_table_get_index: a string of the table yields its index and nothing changes ... *)
+From SqfsV Require Import Util.StrIndex Util.StrCopy.
+
+Theorem str_table_get_index_found_thm : forall h t s i,
+  str_inv h t -> nth_error (strings h t) i = Some s ->
+  str_table_get_index h t s = SOk (h, t, 0%Z, N.of_nat i).
+Proof. exact str_table_get_index_found. Qed.
+Print Assumptions str_table_get_index_found_thm.
+
+(* ... a new string gets the next index: one new bucket (the next allocation), one new hash entry
+   whose key pointer points into that bucket, the abstract list grows by (s, 0), every older
+   bucket is untouched.  Hypotheses: fewer than 2^30 strings (the hash table's bound), pointer-sized
+   array elements, capacity below 2^40 (no size_t overflow when the array doubles) - the last two
+   are again part of the conclusion *)
+Theorem str_table_get_index_new_thm : forall h t s,
+  str_inv h t -> ~ In s (strings h t) ->
+  (st_next_index t < ht_safe_limit)%N ->
+  a_size (st_arr t) = util_sizeof_ptr -> (a_count (st_arr t) <= 1099511627776)%N ->
+  exists h' t',
+    str_table_get_index h t s = SOk (h', t', 0%Z, st_next_index t) /\
+    str_inv h' t' /\
+    str_abs h' t' = str_abs h t ++ (s, 0%N) :: nil /\
+    st_next_index t' = (st_next_index t + 1)%N /\
+    bh_next h' = (bh_next h + 1)%N /\
+    (forall id, (id < bh_next h)%N -> bh_get h' id = bh_get h id) /\
+    a_size (st_arr t') = util_sizeof_ptr /\ (a_count (st_arr t') <= 1099511627776)%N /\
+    a_data (st_arr t') = a_data (st_arr t) ++ bh_next h :: nil.
+Proof. exact str_table_get_index_new. Qed.
+Print Assumptions str_table_get_index_new_thm.
+
+(* str_table_copy(dst, src) with dst->next_index = src->next_index (the caller memcpy's the struct
+   first; the function itself never assigns next_index): succeeds, the copy satisfies the
+   invariant, has the same abstract value (strings, counts, by index) and the same next_index,
+   consists of new buckets only, and the source - buckets, invariant, value - is untouched *)
+Theorem str_table_copy_equiv_thm : forall h dst src,
+  str_inv h src -> st_next_index dst = st_next_index src ->
+  a_size (st_arr src) = util_sizeof_ptr -> (st_next_index src < ht_safe_limit)%N ->
+  exists h' t',
+    str_table_copy h dst src = SOk (h', t', 0%Z) /\
+    str_inv h' t' /\ str_abs h' t' = str_abs h src /\
+    st_next_index t' = st_next_index src /\
+    (forall i bid, nthN (a_data (st_arr t')) i = Some bid -> (bh_next h <= bid)%N) /\
+    (forall id, (id < bh_next h)%N -> bh_get h' id = bh_get h id) /\
+    str_inv h' src /\ str_abs h' src = str_abs h src.
+Proof. exact str_table_copy_equiv. Qed.
+Print Assumptions str_table_copy_equiv_thm.
+
+(* C19 for the string table: source and copy share no bucket, and any operation (get_index of a
+   known or new string, add_ref, del_ref) on one of two tables that share no bucket keeps that
+   table's invariant, leaves the other table's invariant and abstract value alone, and the two
+   still share no bucket - by induction, for every interleaving *)
+Theorem str_table_copy_disjoint_thm : forall h dst src h' t',
+  str_inv h src -> st_next_index dst = st_next_index src ->
+  a_size (st_arr src) = util_sizeof_ptr -> (st_next_index src < ht_safe_limit)%N ->
+  str_table_copy h dst src = SOk (h', t', 0%Z) ->
+  disjoint_tables src t' /\ disjoint_tables t' src.
+Proof. exact str_table_copy_disjoint. Qed.
+Print Assumptions str_table_copy_disjoint_thm.
+
+Theorem str_table_step_independent_thm : forall h a b op,
+  str_inv h a -> str_inv h b -> disjoint_tables a b -> st_roomy a ->
+  exists h' a', st_step h a op = SOk (h', a') /\
+    str_inv h' a' /\ str_inv h' b /\ str_abs h' b = str_abs h b /\ disjoint_tables a' b.
+Proof. exact str_table_step_independent. Qed.
+Print Assumptions str_table_step_independent_thm.
+
+(* ======================================================================================
+   Follow-up to the audit of this file (items on copy_wellformed / release_safe /
+   interleaving_independent / copy_ops_release above).
+   ====================================================================================== *)
+From SqfsV Require Import C19.ObjInst2.
+
+(* (a) Scope of [slack].  copy_wellformed, copy_refines_value, release_safe, survivor_intact and
+   copy_ops_release assume [slack]: for the whole life cycle somebody OUTSIDE the object (pair)
+   holds a further reference to every shared file / compressor, so the objects' own references
+   are never the last ones.  The case "the reader holds the LAST reference" is NOT covered by
+   those theorems (the cascade into the destroy hook of the shared object); the model itself
+   handles it, as the computed life cycles below show, and the harness observes it on the
+   implementation.  A general theorem without [slack] is open. *)
+Example ex_no_slack_not_covered :
+  let '(h, o) := mk_dir 1%N 3%nat 2%N 2%N in copyable 3%nat h o KDir = false.
+Proof. vm_compute. reflexivity. Qed.
+
+Example ex_no_slack_life_dir :
+  let '(h, o) := mk_dir 1%N 3%nat 2%N 2%N in
+  exists h1 c h2 h3 h2' h3',
+    sqfs_copy HK_fixed 3%nat h o = ObjHeap.Ok (h1, Some c) /\
+    sqfs_drop DK 4%nat h1 o = ObjHeap.Ok h2 /\ sqfs_drop DK 4%nat h2 c = ObjHeap.Ok h3 /\
+    sqfs_drop DK 4%nat h1 c = ObjHeap.Ok h2' /\ sqfs_drop DK 4%nat h2' o = ObjHeap.Ok h3' /\
+    h3 = h3' /\ live_count h3 = 0%nat.
+Proof. vm_compute. do 6 eexists. repeat split; reflexivity. Qed.
+
+Example ex_no_slack_life_meta :
+  let '(h, o) := mk_meta 1%N 1%N 1%N in
+  exists h1 c h2 h3 h2' h3',
+    sqfs_copy HK_fixed 3%nat h o = ObjHeap.Ok (h1, Some c) /\
+    sqfs_drop DK 4%nat h1 o = ObjHeap.Ok h2 /\ sqfs_drop DK 4%nat h2 c = ObjHeap.Ok h3 /\
+    sqfs_drop DK 4%nat h1 c = ObjHeap.Ok h2' /\ sqfs_drop DK 4%nat h2' o = ObjHeap.Ok h3' /\
+    h3 = h3' /\ live_count h3 = 0%nat.
+Proof. vm_compute. do 6 eexists. repeat split; reflexivity. Qed.
+
+(* (b) [local_op] is met by real operations of the id table: sqfs_id_table_id_to_index and
+   sqfs_id_table_index_to_id as heap operations (C19/ObjInst2.v) whose abstract view is the
+   layer-(i) machine of C19/ObjMach.v.  Operations of the readers go through the SHARED
+   compressor cell and are not instances of [local_op] as it is defined (it demands that every
+   cell outside the object's footprint is unchanged); for them the independence of original
+   and copy is observed by the twin comparison of the tie, not proved. *)
+Theorem id_to_index_is_local : local_op 1%nat KId N (Z * N) run_id_to_index step_id_to_index.
+Proof. exact id_to_index_local. Qed.
+Print Assumptions id_to_index_is_local.
+
+Theorem index_to_id_is_local : local_op 1%nat KId N (Z * N) run_index_to_id step_index_to_id.
+Proof. exact index_to_id_local. Qed.
+Print Assumptions index_to_id_is_local.
+
+(* original and copy of an id table, id_to_index interleaved: every answer is the machine's *)
+Example ex_interleaving_id_to_index :
+  let '(h, o) := mk_table KId 1%N 2%nat in
+  exists h1 c h2 rs,
+    sqfs_copy HK_fixed 3%nat h o = ObjHeap.Ok (h1, Some c) /\
+    exec N (Z * N) run_id_to_index [(true, 7%N); (false, 8%N); (true, 7%N); (false, 0%N); (true, 9%N)] h1 o c = (h2, rs) /\
+    rs = [(true, (0%Z, 2%N)); (false, (0%Z, 2%N)); (true, (0%Z, 2%N)); (false, (0%Z, 0%N)); (true, (0%Z, 3%N))].
+Proof. vm_compute. eauto 10. Qed.
+
+(* (c) the hypotheses of copy_ops_release, jointly, on the same n, with a real operation *)
+Example ex_copy_ops_release_hyps :
+  let '(h, o) := mk_table KId 1%N 2%nat in
+  hooks_ok HK_fixed = true /\
+  local_op 1%nat KId N (Z * N) run_id_to_index step_id_to_index /\
+  (1 + 1 <= 3)%nat /\ wf_obj 1%nat h o KId /\ sep_obj 1%nat h o /\ slack h (all_refs 1%nat h o) /\ (rc_of h o <= 1)%N.
+Proof.
+  cbv beta iota zeta.
+  destruct (mk_table KId 1%N 2%nat) as [h o] eqn:E.
+  assert (C : copyable 1%nat h o KId = true) by (replace h with (fst (mk_table KId 1%N 2%nat)) by (rewrite E; reflexivity);
+     replace o with (snd (mk_table KId 1%N 2%nat)) by (rewrite E; reflexivity); vm_compute; reflexivity).
+  destruct (copyable_sound _ _ _ _ C) as (W & S & SL).
+  split; [exact hooks_fixed_ok|]. split; [exact id_to_index_is_local|]. split; [auto|].
+  split; [exact W|]. split; [exact S|]. split; [exact SL|].
+  replace h with (fst (mk_table KId 1%N 2%nat)) by (rewrite E; reflexivity);
+  replace o with (snd (mk_table KId 1%N 2%nat)) by (rewrite E; reflexivity). vm_compute. discriminate.
+Qed.
+
+(* the hypotheses of release_safe ([pair_inv] and both reference counts <= 1) for a concrete
+   pair, obtained through copy_wellformed *)
+Example ex_release_safe_hyps :
+  exists n h o c k, hooks_ok HK_fixed = true /\ (n + 1 <= 4)%nat /\ pair_inv n h o c k /\
+                    (rc_of h o <= 1)%N /\ (rc_of h c <= 1)%N.
+Proof.
+  pose (p := mk_dir 1%N 3%nat 3%N 3%N).
+  assert (C : copyable 3%nat (fst p) (snd p) KDir = true) by (vm_compute; reflexivity).
+  destruct (copyable_sound _ _ _ _ C) as (W & S & SL).
+  destruct (copy_wellformed HK_fixed hooks_fixed_ok 3%nat 3%nat (fst p) (snd p) KDir (le_n _) W S SL)
+    as (h' & E & G & W' & RC & _ & _ & _ & P).
+  exists 3%nat, h', (snd p), (length (fst p)), KDir.
+  split; [exact hooks_fixed_ok|]. split; [auto|]. split; [exact P|]. split.
+  - assert (E2 : sqfs_copy HK_fixed 3%nat (fst p) (snd p) = ObjHeap.Ok (h', Some (length (fst p)))) by exact E.
+    vm_compute in E2. inversion E2; subst h'. vm_compute. discriminate.
+  - rewrite RC. vm_compute. discriminate.
+Qed.
